@@ -96,8 +96,8 @@ func verifIpkPayload(o scen.Options) {
 	}
 }
 
-// Verif_C01_C_IpkSources_Thorough: a tree, a directory source expanded by the glob model, an on-disk symlink.
-func Verif_C01_C_IpkSources_Thorough() { verifIpkPayload(scen.Options{Second: -4}) }
+// Verif_C01_C_IpkSources: a tree, a directory source expanded by the glob model, an on-disk symlink.
+func Verif_C01_C_IpkSources() { verifIpkPayload(scen.Options{Second: -4}) }
 
 // Verif_C01_C_IpkAll_Thorough: modes, umask, owners, content, destination and entry type symbolic at once.
 func Verif_C01_C_IpkAll_Thorough() {
